@@ -579,6 +579,75 @@ def _count(what: str, n) -> None:
         LOCAL_REWRITES[what] = LOCAL_REWRITES.get(what, 0) + n
 
 
+def _edge_data_locals(fn: ast.FunctionDef) -> int:
+    """`e = G.get_edge_data(a, b)` (networkx: the edge's own attribute dictionary, or None when there is no such edge; bound
+    once, a and b plain names that are not re-bound): `e is None` is `not G.has_edge(a, b)`, any other read of `e` is
+    `G.edges[a, b]`."""
+    import copy as _copy
+    stores: dict[str, int] = {}
+    for n in ast.walk(fn):
+        if isinstance(n, ast.Name) and isinstance(n.ctx, (ast.Store, ast.Del)):
+            stores[n.id] = stores.get(n.id, 0) + 1
+        if isinstance(n, (ast.Global, ast.Nonlocal)):
+            return 0
+    params = {a.arg for a in fn.args.posonlyargs + fn.args.args + fn.args.kwonlyargs}
+    count = 0
+
+    def block(body: list) -> None:
+        nonlocal count
+        for i, st in enumerate(body):
+            if isinstance(st, ast.Assign) and len(st.targets) == 1 and isinstance(st.targets[0], ast.Name):
+                v = st.value
+                while isinstance(v, ast.Call) and isinstance(v.func, ast.Name) and v.func.id == "cast" and len(v.args) == 2:
+                    v = v.args[1]
+                e = st.targets[0].id
+                if isinstance(v, ast.Call) and isinstance(v.func, ast.Attribute) and v.func.attr == "get_edge_data" and len(v.args) == 2 \
+                        and not v.keywords and all(isinstance(a, ast.Name) for a in v.args) and stores.get(e) == 1 and e not in params \
+                        and all(stores.get(a.id, 0) == 0 or (a.id not in params and stores.get(a.id) == 1) for a in v.args):
+                    G, a_, b_ = v.func.value, v.args[0], v.args[1]
+                    rest = body[i + 1:]
+                    if any(isinstance(y, (ast.FunctionDef, ast.Lambda)) for r in rest for y in ast.walk(r)):
+                        continue
+
+                    def has_edge():
+                        return ast.Call(ast.Attribute(_copy.deepcopy(G), "has_edge", ast.Load()), [_copy.deepcopy(a_), _copy.deepcopy(b_)], [])
+
+                    class RN(ast.NodeTransformer):
+                        def visit_Compare(self, n_):
+                            if len(n_.ops) == 1 and isinstance(n_.left, ast.Name) and n_.left.id == e and isinstance(n_.ops[0], (ast.Is, ast.IsNot)) \
+                                    and isinstance(n_.comparators[0], ast.Constant) and n_.comparators[0].value is None:
+                                h = has_edge()
+                                out = h if isinstance(n_.ops[0], ast.IsNot) else ast.UnaryOp(ast.Not(), h)
+                                for y in ast.walk(out):
+                                    ast.copy_location(y, n_)
+                                return out
+                            return self.generic_visit(n_)
+
+                        def visit_Name(self, n_):
+                            if n_.id == e and isinstance(n_.ctx, ast.Load):
+                                out = ast.Subscript(ast.Attribute(_copy.deepcopy(G), "edges", ast.Load()),
+                                                    ast.Tuple([_copy.deepcopy(a_), _copy.deepcopy(b_)], ast.Load()), ast.Load())
+                                for y in ast.walk(out):
+                                    ast.copy_location(y, n_)
+                                return out
+                            return n_
+                    for k in range(i + 1, len(body)):
+                        body[k] = RN().visit(body[k])
+                    body[i] = ast.copy_location(ast.Pass(), st)
+                    count += 1
+            if not isinstance(st, (ast.FunctionDef, ast.ClassDef)):
+                for fld in ("body", "orelse", "finalbody"):
+                    sub = getattr(st, fld, None)
+                    if isinstance(sub, list) and sub and isinstance(sub[0], ast.stmt):
+                        block(sub)
+                for h in getattr(st, "handlers", []) or []:
+                    block(h.body)
+    block(fn.body)
+    if count:
+        ast.fix_missing_locations(fn)
+    return count
+
+
 def _inline_local_constant_tuples(fn: ast.FunctionDef) -> int:
     """`values = (0, 1)` (bound once to a short tuple/list of constants, never mutated: read only as the iterable of loops /
     comprehensions or on the right of `in`): the name is the literal."""
@@ -625,6 +694,7 @@ def _drop_local_annotations(tree: ast.Module) -> None:
     for x in ast.walk(tree):
         if isinstance(x, ast.FunctionDef):
             _count("local_constant_tuples", _inline_local_constant_tuples(x))
+            _count("edge_data_locals", _edge_data_locals(x))
     _DropAnn().visit(tree)
     # loops over short literal sequences are unrolled (`for v in (0, 1): ...`, `for bdd, up in ((p, True), (n, False)): ...`)
     from . import peval
